@@ -301,6 +301,11 @@ class Shard:
                 return
             key, desc = read_cur(self.cur)
             self.restarts += 1
+            if rc == 75 and not timed_out and not key:
+                # the worker asked to be replaced after a complete batch: it reported a call that
+                # did not return within its in-worker deadline and left it behind on a goroutine
+                start = last + 1
+                continue
             if timed_out:
                 # hang protocol: re-run the journalled sub-case alone with a 3x deadline
                 if key:
